@@ -2,7 +2,8 @@
    Only statements here; proofs live in Proofs/ErrContProofs.v,
    Proofs/ErrRouteProofs.v and Proofs/ErrOnceProofs.v. *)
 From Tab Require Import Model.ErrCont Model.ErrRoute Spec.ErrLog
-  Proofs.ErrContProofs Proofs.ErrRouteProofs Proofs.ErrOnceProofs.
+  Proofs.ErrContProofs Proofs.ErrRouteProofs Proofs.ErrOnceProofs
+  Model.ErrBulk Spec.ErrBulk Proofs.ErrBulkProofs.
 
 (* The container alone, for every history of AddError / AddErrorList / Errors /
    AddErrorList(Errors()) and every way of making it (nil pointer, zero value,
@@ -164,3 +165,72 @@ Theorem c11_source_container_nil : forall ops,
   /\ (forall e, src_AddError None e = Ok None) /\ (forall el, src_AddErrorList None el = Ok None).
 Proof. exact src_container_nil. Qed.
 Print Assumptions c11_source_container_nil.
+(* ---- volume (round 6): the lists have no ceiling.  Histories of any length
+   are inside the theorems above already; these state the growth itself, and
+   tie the bulk operations the harness uses for long histories (loops of
+   AddError, long lists, a callback failing for every cell of a row:
+   Model/ErrBulk.v) to the plain model. *)
+
+(* Errors() after any bulk history is the view of the bulk spec's log *)
+Theorem c11_bulk_container : forall m ops, errors (vrun m ops) = view (vexpected m ops).
+Proof. exact bulk_container_log. Qed.
+Print Assumptions c11_bulk_container.
+
+(* one more non-nil error, whatever the container holds: Errors() is what it was plus that error *)
+Theorem c11_container_grows : forall m ops e, m <> MNil ->
+  log_of (errors (cont_run m (ops ++ [OpAdd (Some e)])))
+  = log_of (errors (cont_run m ops)) ++ [Some e].
+Proof. exact container_grows. Qed.
+Print Assumptions c11_container_grows.
+
+(* a loop of n AddError calls after any history: Errors() is what it was plus
+   those n errors, and longer by exactly n - for every n *)
+Theorem c11_container_no_ceiling : forall m ops k n, m <> MNil ->
+  log_of (errors (add_many (cont_run m ops) k n))
+  = log_of (errors (cont_run m ops)) ++ map Some (ids_from k n)
+  /\ length (log_of (errors (add_many (cont_run m ops) k n)))
+     = (length (log_of (errors (cont_run m ops))) + n)%nat.
+Proof. exact container_no_ceiling. Qed.
+Print Assumptions c11_container_no_ceiling.
+
+(* one more event of a table history: Table.Errors() is what it was plus what
+   the event owes the table, whatever the table holds *)
+Theorem c11_table_grows : forall h ev, wf_hist (h ++ [ev]) ->
+  log_of (table_errors (run (h ++ [ev])))
+  = log_of (table_errors (run h)) ++ map Some (contribution h ev).
+Proof. exact table_grows. Qed.
+Print Assumptions c11_table_grows.
+
+(* the table and its rows after any bulk history *)
+Theorem c11_bulk_table : forall bh, wf_hist (bexpand_all bh) ->
+  table_errors (brun bh) = view (expected_errors (bexpand_all bh))
+  /\ forall r, row_errors (brun bh) r = view (expected_row (bexpand_all bh) r).
+Proof. exact bulk_table_log. Qed.
+Print Assumptions c11_bulk_table.
+
+(* a callback (registered anywhere, firing at any site) that fails n times in
+   a row for a row of the table - once per cell of a row of n cells: exactly
+   those n errors are appended to Table.Errors(), for every n *)
+Theorem c11_every_cell_fails : forall h s r k n,
+  wf_hist h -> joined h r = true -> taken h r = false ->
+  log_of (table_errors (brun_from (run h) [BCallbacks s r k n]))
+  = log_of (table_errors (run h)) ++ map Some (ids_from k (N.to_nat n)).
+Proof. exact every_cell_fails. Qed.
+Print Assumptions c11_every_cell_fails.
+
+(* non-vacuity: 3 rows of 4 cells under a table-level cell callback that
+   always fails, 5 errors on a detached row that joins afterwards, a list with
+   nil runs: 12 + 5 + 3 errors, in order *)
+Example c11_example_bulk :
+  let bh := [ BOne (AttachRow 1); BCallbacks STblCellAddRow 1 0 4;
+              BRowErrs 9 100 5;
+              BOne (AttachRow 2); BCallbacks STblCellAddRow 2 4 4;
+              BOne (AttachRow 9);
+              BOne (TableAddErrorList (Some (unruns [(None, 2); (Some 200, 3); (None, 1)])));
+              BOne (AttachRow 3); BCallbacks STblCellAddRow 3 8 4 ] in
+  wf_hist (bexpand_all bh)
+  /\ table_errors (brun bh)
+     = Some (map Some ([0;1;2;3;4;5;6;7] ++ [100;101;102;103;104] ++ [200;201;202] ++ [8;9;10;11]))
+  /\ errors (vrun MZero [VAddMany 0 3; VOp OpAddSelf; VAddList [(None, 1); (Some 7, 2)]])
+     = Some (map Some [0;1;2;0;1;2;7;8]).
+Proof. cbv zeta. repeat split; vm_compute; reflexivity. Qed.
